@@ -27,19 +27,21 @@ type Resolved struct {
 
 // FuncFacts caches per-function analyses.
 type FuncFacts struct {
-	P    *Program
-	Fn   *ssa.Function
-	fwd  map[*ssa.UnOp]Resolved // loads that forward to a unique reaching store
-	in   []map[string]*Atom     // must-hold facts at block entry (nil = unreachable/top)
-	done bool
-	ids  map[ssa.Value]int
+	P       *Program
+	Fn      *ssa.Function
+	fwd     map[*ssa.UnOp]Resolved             // loads that forward to a unique reaching store
+	agg     map[*ssa.UnOp]map[string]ssa.Value // aggregate loads: field-name path → reaching stored value
+	aggBase map[*ssa.UnOp]Resolved             // aggregate loads: the whole value the overrides apply to
+	in      []map[string]*Atom                 // must-hold facts at block entry (nil = unreachable/top)
+	done    bool
+	ids     map[ssa.Value]int
 }
 
 func (P *Program) Facts(fn *ssa.Function) *FuncFacts {
 	if ff, ok := P.fnFacts[fn]; ok {
 		return ff
 	}
-	ff := &FuncFacts{P: P, Fn: fn, fwd: map[*ssa.UnOp]Resolved{}, ids: map[ssa.Value]int{}}
+	ff := &FuncFacts{P: P, Fn: fn, fwd: map[*ssa.UnOp]Resolved{}, agg: map[*ssa.UnOp]map[string]ssa.Value{}, aggBase: map[*ssa.UnOp]Resolved{}, ids: map[ssa.Value]int{}}
 	P.fnFacts[fn] = ff
 	ff.forward()
 	ff.solve()
@@ -96,7 +98,7 @@ func forwardable(a *ssa.Alloc) bool {
 			case ssa.CallInstruction:
 				// kill at the call; fine
 			case *ssa.MakeClosure:
-				if !closureOnlyDeferred(x) {
+				if !closureOnlyDeferred(x) && !closureNeverWrites(x, v) {
 					return false
 				}
 			default:
@@ -106,6 +108,50 @@ func forwardable(a *ssa.Alloc) bool {
 		return true
 	}
 	return ok(a)
+}
+
+// closureNeverWrites: the closure binds addr as a free variable but only ever loads it
+// (single-assignment captured variable, e.g. a spilled parameter).
+func closureNeverWrites(mc *ssa.MakeClosure, addr ssa.Value) bool {
+	fn, ok := mc.Fn.(*ssa.Function)
+	if !ok {
+		return false
+	}
+	for i, b := range mc.Bindings {
+		if b != addr || i >= len(fn.FreeVars) {
+			continue
+		}
+		if !onlyLoaded(fn.FreeVars[i], 0) {
+			return false
+		}
+	}
+	return true
+}
+
+func onlyLoaded(v ssa.Value, depth int) bool {
+	if depth > 4 || v.Referrers() == nil {
+		return false
+	}
+	for _, r := range *v.Referrers() {
+		switch x := r.(type) {
+		case *ssa.UnOp:
+			if x.Op != token.MUL {
+				return false
+			}
+		case *ssa.FieldAddr:
+			if !onlyLoaded(x, depth+1) {
+				return false
+			}
+		case *ssa.DebugRef:
+		case *ssa.MakeClosure:
+			if !closureNeverWrites(x, v) {
+				return false
+			}
+		default:
+			return false
+		}
+	}
+	return true
 }
 
 func closureOnlyDeferred(mc *ssa.MakeClosure) bool {
@@ -124,6 +170,13 @@ func closureOnlyDeferred(mc *ssa.MakeClosure) bool {
 	}
 	return true
 }
+
+type unknownMarker struct{ ssa.Value }
+
+func (unknownMarker) Name() string   { return "?" }
+func (unknownMarker) String() string { return "?" }
+
+var unknownValue ssa.Value = unknownMarker{}
 
 type reachState map[slot]ssa.Value // missing = no store seen (zero value); nil value = conflicting/unknown
 
@@ -152,10 +205,11 @@ func (ff *FuncFacts) forward() {
 				return
 			}
 			pk := pathKey(path)
-			// a store to path p invalidates every slot that is a prefix or an extension of p
+			// a store to path p overwrites every slot below p; slots above p stay valid for
+			// the other fields (lookups take the longest stored prefix)
 			for s := range st {
-				if s.base == base && s.path != pk && (strings.HasPrefix(s.path, pk) || strings.HasPrefix(pk, s.path)) {
-					st[s] = nil
+				if s.base == base && s.path != pk && strings.HasPrefix(s.path, pk+".") {
+					delete(st, s)
 				}
 			}
 			st[slot{base, pk}] = x.Val
@@ -188,15 +242,63 @@ func (ff *FuncFacts) forward() {
 			if _, killed := st[slot{base, "#killed"}]; killed {
 				// after a kill only later explicit stores are trusted
 			}
+			pk := pathKey(path)
+			hasBelow := false
+			for sl := range st {
+				if sl.base == base && strings.HasPrefix(sl.path, pk+".") {
+					hasBelow = true
+				}
+			}
 			// longest stored prefix
 			for i := len(path); i >= 0; i-- {
 				s := slot{base, pathKey(path[:i])}
 				if v, ok := st[s]; ok {
 					if v != nil {
-						ff.fwd[x] = Resolved{V: v, Rest: append([]int(nil), path[i:]...)}
+						r := Resolved{V: v, Rest: append([]int(nil), path[i:]...)}
+						if hasBelow {
+							ff.aggBase[x] = r // whole value with field overrides below
+						} else {
+							ff.fwd[x] = r
+						}
 					}
-					return
+					break
 				}
+			}
+			if !hasBelow {
+				return
+			}
+			// aggregate load: remember the reaching stores of the fields below the path
+			for sl, v := range st {
+				if sl.base != base || !strings.HasPrefix(sl.path, pk+".") {
+					continue
+				}
+				if v == nil {
+					v = unknownValue
+				}
+				names := ""
+				t := x.Type()
+				ok := true
+				for _, part := range strings.Split(strings.TrimPrefix(sl.path, pk+"."), ".") {
+					fi := 0
+					for _, ch := range part {
+						if ch < '0' || ch > '9' {
+							ok = false
+						}
+						fi = fi*10 + int(ch-'0')
+					}
+					if !ok {
+						break
+					}
+					names += "." + fieldName(t, fi)
+					t = fieldType(t, fi)
+				}
+				if !ok {
+					continue
+				}
+				if ff.agg[x] == nil {
+					ff.agg[x] = map[string]ssa.Value{}
+				}
+				ff.agg[x][names] = v
 			}
 		}
 	}
